@@ -116,7 +116,7 @@ theorem propBlock_exact {name : Str} {req opt : Bool} {f : CField} (hname : isId
   have hq' := fun (rq o : Bool) => Exact.lift_type (e := e) (nm := sStr name) (t1 := true) (rq := rq) (o := o)
     (kind_lt f) hq
   have hbd' := fun (rq o : Bool) =>
-    ff.runB sc2 [] false e [0, kindIdx f] _ (propReach ff hbs (sStr name) rq o)
+    ff.runB sc2 [] e [0, kindIdx f] _ (propReach ff hbs (sStr name) rq o)
       ⟨[propCF e], tail, hbs, propCF_misses_block ff e, htail⟩
   have hts : (propTypeScope e f).blockSet = propCF e :: [cfOf (kindSchema f) (kindSpec f) (e ++ [0, kindIdx f])] := rfl
   have hhead : ∀ (mark : TagMark) (rq o : Bool) (isOpen : Bool),
